@@ -74,9 +74,17 @@ def drive(sc):
         if not mask.all():
             cfg["variables"]["mask"] = [bool(b) for b in mask]
         masks = [mask if not mask.all() else None]
+    plugin = plugin_manager().get_plugin("sampler", method=method)
+    if method in ("norm", "truncnorm", "uniform") and (R + P) % 2 == 0:
+        # the sampler entries are DERIVED (model_copy) from a uniform entry that has already been used to build a sampler
+        from ropt.config.enopt import SamplerConfig
+        parent = SamplerConfig(method="uniform", shared=bool(sc["shared"]))
+        with warnings.catch_warnings():
+            warnings.simplefilter("ignore")
+            plugin.create(EnOptConfig.model_validate(dict(cfg, samplers=[parent] * len(cfg["samplers"]))), 0, masks[0], default_rng(1)).generate_samples()
+        cfg["samplers"] = [parent.model_copy(update={"method": method})] * len(cfg["samplers"])
     config = EnOptConfig.model_validate(cfg)
     rng = default_rng(seed)
-    plugin = plugin_manager().get_plugin("sampler", method=method)
     trace = []
     with warnings.catch_warnings():
         warnings.simplefilter("ignore")
@@ -161,6 +169,10 @@ def pipeline(sc, cfg, mask):
     ee = EnsembleEvaluator(config, None, evaluator, pm)
     _, outcome = outcome_of(lambda: ee.calculate(np.zeros(V), compute_functions=True, compute_gradients=True))
     out = []
+    from collections import Counter
+    if any(n > 1 for n in Counter(index for index, _ in log).values()):
+        # one gradient evaluation draws from every sampler in use exactly once (a second draw would be added on top)
+        out.append(observe(sc, free, None, "exc:sampler_drawn_from_twice_in_one_evaluation", None, sc["method"]))
     for index, samples in log:
         want = free & (assign == index)
         out.append(observe(sc, want, samples, outcome, None, sc["method"]))
